@@ -1,4 +1,5 @@
 import SSVerif.Model.Hist
+import SSVerif.Model.HypBuf
 import SSVerif.Model.Jsgf
 import SSVerif.Model.JsgfText
 import SSVerif.Generated.HistConsts
@@ -130,10 +131,13 @@ def feed (b : Blk) (ws : List String) : Blk :=
     match parseNat i with
     | some i => { b with dictFiller := b.dictFiller.push (i, f = "1") }
     | none => { b with bad := "SD" :: b.bad }
+  -- `SR …`: hypotheses of Props/C03Fillers evaluated by the harness on the decoder's dictionary (judged by tools/props/c01.py)
+  | "SR" :: _ => b
   | ["J", t] => { b with jsgfText := parseHex t }
   | ["JT", t] => { b with toprule := if t = "-" then none else parseHex t }
   | ["H", w, sc] =>
     { b with hyp := if w = "null" then none else parseHex w, hypScore := (parseInt sc).getD 0 }
+  | "HB" :: _ => b     -- allocation size / strlen / whole block of the returned string: compared by tools/props/c01.py with `R HB`
   | ["X", _, w, sf, ef, a, l, p] =>
     match parseInt sf, parseInt ef, parseInt a, parseInt l, parseInt p with
     | some sf, some ef, some a, some l, some p =>
@@ -235,6 +239,17 @@ def answer (b : Blk) : List String := Id.run do
   -- the model's hypothesis and segments
   let (mh, msc) := hyp baseOf g h b.cur b.final
   out := out ++ [s!"R H {match mh with | none => "null" | some ws => toHex (joinSp ws)} {msc}"]
+  -- byte level (Model/HypBuf.lean, Props/C01Hyp.lean): the block `fsg_search_hyp` sizes, allocates and fills from the back,
+  -- run on the dumped backtrace; `R HB ok <len> <block> <final c> <#stores> <each of 0..len-2 stored once> <no NUL in a word>
+  -- <C string of the block = the list-level words joined>`
+  out := out ++ [match (SSVerif.HypBuf.hypRet baseOf g h b.cur b.final).1 with
+    | .null => "R HB null"
+    | .fail e => s!"R HB fail {repr e}"
+    | .ok len buf c log =>
+      let cnt : Array Nat := log.foldl (fun a i => a.modify i (· + 1)) (Array.replicate (len - 1) 0)
+      let once := decide (log.length = len - 1) && log.all (· < len - 1) && cnt.all (· == 1)
+      let ws := (mh.getD [])
+      s!"R HB ok {len} {toHex buf} {c} {log.length} {b01 once} {b01 (decide (SSVerif.HypBuf.NoNul ws))} {b01 (SSVerif.HypBuf.cstr buf == joinSp ws && SSVerif.HypBuf.join1 ws == joinSp ws)}"]
   match segs shift g h b.cur b.final with
   | none => out := out ++ ["R nseg null"]
   | some ss =>
